@@ -13,6 +13,19 @@ Streams
            B/diagD), the consistency clauses, the `eigh` contract on numpy's answer, and order independence
            (a deep copy of the strategy updated with a permuted population must reach the identical state).
   sort   : `population.sort(key=fitness, reverse=True)` incl. ties (stable) — model vs. implementation.
+  alias  : (first in `generate`) a small program over SEVERAL strategies and the objects the caller passed to their
+           constructors: start point (list / tuple / int list / float32 / int64 / float64 ndarray), cmatrix (float64 or
+           integer ndarray, or the default), the keyword dictionary (lambda_, mu, weights, rates).  The objects are
+           shared by 2..4 strategies that are updated in any interleaving, modified by the caller between updates,
+           re-used to build a further strategy after the first ones have run (restart); `lambda_ = k;
+           computeParams(dictionary)` re-parameterises ONE strategy from the dictionary as it is then; populations are
+           lists / arrays / views of one array and are handed to a second strategy as they are.  After every step
+           of the library (construction, generate, update, computeParams) the oracle demands: the clauses of the
+           statement for the strategy addressed, from ITS OWN state after its own last step (never from a fresh
+           read); every other strategy bit-identical to what it was; every caller object (and every individual)
+           bit-identical to what it was.  The model replays each strategy's history separately (`init`,
+           `generate`, `update`, `relambda` lines built from that strategy's own recorded states) — theorems
+           update_frame / strategies_independent / restart_fresh / computeParams_refresh.
 """
 import copy
 import math
@@ -34,7 +47,9 @@ TOL = 1e-8          # parameter stream and the oracle (norm-wise)
 # cond(C) <= 1e8 and 3e-10 at 1e9; histories are cut once cond(C) > 1e8.  A wrong coefficient changes
 # the result by 1e-2 or more.
 TOL_RUN = 1e-6
-RULE = ("fixed case list per (tier, seed): 42 structured + 1800 (thorough up to 6000, cut deterministically by a 1.5 GB protocol-volume cap) random histories, the parameter sweep "
+RULE = ("fixed case list per (tier, seed): 7 structured + 40 (thorough 400) random multi-strategy programs (stream alias: dims 2..5, thorough 2..8; "
+        "2..4 strategies, 6..12 steps out of update / update of two strategies with one population / caller write to centroid, cmatrix or "
+        "keyword dictionary / restart from the same objects / lambda_ change + computeParams), then 42 structured + 1800 (thorough up to 6000, cut deterministically by a 1.5 GB protocol-volume cap) random histories, the parameter sweep "
         "+ 150 (1500) random rate sets, 60 (600) sorts; QUICK EXPLORES DIMENSIONS 2..8 ONLY, 9..20 are thorough-only. "
         "params: dims 2..8 (thorough 2..20) x lambda 4..14 x mu {default, 1, lambda/3, lambda} x 3 schemes, plus "
         "random user-supplied rates; runs: random (dim, lambda>=4, mu<=lambda, scheme, default or user-supplied "
@@ -57,6 +72,11 @@ TRUSTED = ["numpy.linalg.eigh (LAPACK) — a parameter of the model with the con
            "largest entry of the vector/matrix) along histories with cond(C) <= 1e8, 1e-8 for the parameters",
            "numpy.argsort — any permutation sorting the eigenvalues (checked by the model on every answer)"]
 ASSUMPTIONS = ["finite inputs, sigma > 0, symmetric positive definite cmatrix, fitness values without NaN",
+               "cmatrix is a numpy array (float or integer): a nested list raises TypeError at the first update "
+               "(cma.py:158 multiplies it by a scalar) — reported, not explored",
+               "the caller does not write to his cmatrix array between the construction of a strategy and that strategy's "
+               "first update: until then `strategy.C is cmatrix` (cma.py:100 keeps the object, :158 re-binds) — reported; "
+               "afterwards, and for the start point and the keyword dictionary at any time, caller writes are explored",
                "mu >= 1 and mu <= lambda = len(population) (numpy raises otherwise)",
                "well-posedness guard of the equation theorems (structure WellPosed): sigma > 0, 0 < cs < 2, damps != 0, "
                "diagD > 0 — outside it numpy divides by zero (inf/nan) while division over the reals is totalised",
@@ -69,7 +89,9 @@ ASSUMPTIONS = ["finite inputs, sigma > 0, symmetric positive definite cmatrix, f
 EXPLANATION = ("Algebra of update/computeParams/generate proved over the reals for all dimensions and populations "
                "(code form = published form, symmetry, BD BD^T = C under the eigh contract, sigma > 0, weights, order "
                "independence); the Float instance of the same definitions is diffed against numpy after every update "
-               "from the strategy's own pre-update state.")
+               "from the strategy's own pre-update state.  Several strategies sharing / re-using the caller's parameter "
+               "objects: each is compared with its own separate replay and must not change unless it is the one updated "
+               "(update_frame, strategies_independent); caller objects must stay as they are.")
 
 SCHEMES = ("superlinear", "linear", "equal")
 RATES = ("cs", "damps", "ccum", "ccov1", "ccovmu")
@@ -666,6 +688,484 @@ def eval_run(d):
     return Case(d, lines, expect, orc, tag=tag, tol=TOL_RUN)
 
 
+# ----------------------------------------------------------------------------------------
+# stream `alias`: several strategies, the caller keeps / shares / modifies / re-uses the objects he passed
+# ----------------------------------------------------------------------------------------
+
+CENT_KINDS = ("list", "tuple", "intlist", "f32", "i64", "f64")
+CM_KINDS = ("f64", "int", "none")       # a nested list as cmatrix raises TypeError at the first update (see ASSUMPTIONS)
+IND_KINDS = ("list", "ndarray", "view")
+
+
+class ViewInd(numpy.ndarray):
+    """an individual that is a VIEW of what `ind_init` is given: `generate` hands out the rows of one array, so all
+    individuals of a generation share that array's memory"""
+    def __new__(cls, a):
+        return numpy.asarray(a).view(cls)
+
+    def __array_finalize__(self, obj):
+        self.fitness = getattr(obj, "fitness", None)
+
+
+def alias_objects(d):
+    """the caller's objects: (centroid object, cmatrix object or None, keyword dictionary)"""
+    n = d["dim"]
+    rs = numpy.random.RandomState(d["cseed"])
+    kind = d["cent"]
+    fl = rs.uniform(-3.0, 3.0, n)
+    ints = [int(v) for v in rs.randint(-5, 6, n)]
+    if kind == "list":
+        cobj = [float(x) for x in fl]
+    elif kind == "tuple":
+        cobj = tuple(float(x) for x in fl)
+    elif kind == "intlist":
+        cobj = list(ints)
+    elif kind == "f32":
+        cobj = numpy.array(fl, dtype=numpy.float32)
+    elif kind == "i64":
+        cobj = numpy.array(ints, dtype=numpy.int64)
+    elif kind == "f64":
+        cobj = numpy.array(fl, dtype=numpy.float64)
+    else:
+        raise ValueError(kind)
+    if d["cm"] == "f64":
+        cm, _ = make_cmatrix(d.get("cmk", "spd1"), n, numpy.random.RandomState(d["cseed"] + 104729))
+        cm = numpy.array(cm, dtype=numpy.float64)
+    elif d["cm"] == "int":
+        M = numpy.random.RandomState(d["cseed"] + 104729).randint(-1, 2, (n, n))
+        cm = (M @ M.T + numpy.identity(n, dtype=numpy.int64)).astype(numpy.int64)     # SPD, eigenvalues >= 1
+    elif d["cm"] == "none":
+        cm = None
+    else:
+        raise ValueError(d["cm"])
+    P = {"lambda_": d["lam"]}
+    if d.get("mu") is not None:
+        P["mu"] = d["mu"]
+    if d.get("scheme") is not None:
+        P["weights"] = d["scheme"]
+    for k in RATES:
+        if k in d.get("over", {}):
+            P[k] = d["over"][k]
+    if cm is not None:
+        P["cmatrix"] = cm
+    return cobj, cm, P
+
+
+def _shadow(obj):
+    """a value copy of a caller object, with everything that identifies its representation"""
+    if isinstance(obj, numpy.ndarray):
+        return ("nd", str(obj.dtype), obj.shape, obj.tobytes())
+    if isinstance(obj, (list, tuple)):
+        return (type(obj).__name__, tuple((type(x).__name__, repr(x)) for x in obj))
+    if isinstance(obj, dict):
+        return ("dict", tuple((k, id(v), _shadow(v)) for k, v in obj.items()))
+    return (type(obj).__name__, repr(obj))
+
+
+def snap_diff(a, b):
+    """name of the first attribute in which two snapshots differ (bitwise), or None"""
+    for k in sorted(a):
+        x, y = a[k], b[k]
+        if isinstance(x, numpy.ndarray) or isinstance(y, numpy.ndarray):
+            x, y = numpy.asarray(x), numpy.asarray(y)
+            if x.shape != y.shape or x.tobytes() != y.tobytes():
+                return k
+        elif x != y and not (x != x and y != y):
+            return k
+    return None
+
+
+def eval_alias(d):
+    n = d["dim"]
+    cobj, cm, P = alias_objects(d)
+    share = d.get("share", True)
+    lines, expect, tags = [], [], []
+    orc = None
+    F = fit_class(tuple(d["fw"]))
+    f = objective(d, n)
+    Ind = {"list": ListInd, "ndarray": ArrInd, "view": ViewInd}[d["ind"]]
+    strats, last = [], []
+    gcount = [0]
+    shadow = {}
+
+    def fail(msg):
+        nonlocal orc
+        if orc is None:
+            orc = msg
+
+    def caller_objects():
+        return (("centroid", cobj), ("cmatrix", cm), ("keyword dictionary", P))
+
+    def remember():
+        for name, o in caller_objects():
+            shadow[name] = _shadow(o)
+
+    def check_world(what, touched=()):
+        """after the library did `what`: no strategy but the touched ones changed, no caller object changed"""
+        for j, st in enumerate(strats):
+            if j in touched:
+                continue
+            df = snap_diff(last[j], snapshot(st))
+            if df is not None:
+                fail("strategy #%d changed (attribute %s) although it was not updated: it happened during %s" % (j, df, what))
+        for name, o in caller_objects():
+            if _shadow(o) != shadow[name]:
+                fail("the caller's %s object was modified by the library during %s" % (name, what))
+
+    def cur_params():
+        lam_mu = P.get("mu")
+        return lam_mu, P.get("weights") or "superlinear", {k: P[k] for k in RATES if k in P}
+
+    def over_tok(over):
+        return " ".join(opt(over.get(k)) for k in RATES)
+
+    def construct(sigma):
+        """Strategy(centroid object, sigma, **keyword dictionary) from the caller's objects as they are NOW"""
+        if share:
+            c_arg, kw = cobj, dict(P)
+        else:
+            c_arg, kw = copy.deepcopy(cobj), copy.deepcopy(P)
+        cvals = numpy.array([float(x) for x in cobj], dtype=float)
+        cmvals = None if cm is None else numpy.array(cm, dtype=float)
+        mu_u, scheme, over = cur_params()
+        st = cma.Strategy(c_arg, sigma, **kw)
+        k = len(strats)
+        C0 = numpy.identity(n) if cmvals is None else cmvals
+        w0, V0 = numpy.linalg.eigh(C0)
+        i0 = numpy.argsort(w0)
+        lines.append("C13 init %s %s %s %s %s %s %s %s %s %s" % (
+            fv(cvals), fbits(sigma), str(P["lambda_"]), opt(mu_u, str), scheme, over_tok(over),
+            "-" if cmvals is None else fm(cmvals), fv(w0), fm(V0), ",".join(str(int(i)) for i in i0)))
+        expect.append(" ".join([str(st.dim), str(st.lambda_), fbits(st.chiN), nvec(st.pc), nvec(st.ps), nmat(st.C),
+                                nvec(st.diagD), nmat(st.B), nmat(st.BD), fbits(st.cond), str(st.update_count), "1",
+                                params_answer(st)]))
+        lam = P["lambda_"]
+        mu = mu_u if mu_u is not None else int(lam / 2)
+        if st.lambda_ != lam:
+            fail("strategy #%d: lambda_=%r, supplied %r" % (k, st.lambda_, lam))
+        if st.dim != n or not close(st.centroid, cvals, 0) or st.sigma != sigma:
+            fail("strategy #%d: initial centroid / sigma / dim are not the given ones" % k)
+        if numpy.any(st.pc != 0) or numpy.any(st.ps != 0) or st.update_count != 0:
+            fail("strategy #%d: evolution paths / update_count do not start at zero" % k)
+        if not close(st.C, C0, 0):
+            fail("strategy #%d: initial C is not the given cmatrix / identity (as the caller's object is now)" % k)
+        e = check_params(st, n, lam, mu, scheme, over)
+        if e:
+            fail("strategy #%d: %s" % (k, e))
+        e = check_consistency(st)
+        if e:
+            fail("strategy #%d after __init__: %s" % (k, e))
+        strats.append(st)
+        last.append(snapshot(st))
+        check_world("the construction of strategy #%d" % k, touched=(k,))
+
+    def sample(k):
+        """generate + evaluate with strategy k; None when the history has to stop here"""
+        st, pre = strats[k], last[k]
+        g = gcount[0]
+        gcount[0] += 1
+        with tapemod.Tape(rng=random.Random(d["zseed"] * 1000 + g), numpy_too=True) as tp:
+            pop = st.generate(Ind)
+        draws = [x for x in tp.draws if x[0] == "np.standard_normal"]
+        if len(draws) != 1 or draws[0][1] != [pre["lambda_"], n]:
+            fail("TAPE: generate drew %r instead of one (lambda_, dim) standard-normal block" % (
+                [(x[0], x[1]) for x in tp.draws],))
+            return None
+        arz = numpy.array(draws[0][2], dtype=float).reshape(pre["lambda_"], n)
+        if len(pop) != pre["lambda_"]:
+            fail("strategy #%d: generate returned %d individuals for lambda_=%d" % (k, len(pop), pre["lambda_"]))
+            return None
+        if any(type(x) is not Ind for x in pop):
+            fail("strategy #%d: generate did not build the individuals with the given ind_init" % k)
+        if any(len(x) != n for x in pop):
+            fail("strategy #%d: generate returned an individual whose size is not the problem dimension" % k)
+            return None
+        want = pre["centroid"] + pre["sigma"] * (arz * pre["diagD"]) @ pre["B"].T
+        got = numpy.array([[float(v) for v in x] for x in pop])
+        if not close(got, want):
+            fail("strategy #%d: generate: individuals differ from centroid + sigma B D z of its own state" % k)
+        lines.append("C13 generate %d %d %s %s %s %s" % (n, pre["lambda_"], fv(pre["centroid"]), fbits(pre["sigma"]),
+                                                        fm(pre["BD"]), fv(draws[0][2])))
+        expect.append("%d %d %s" % (len(pop), 0, nmat(got)))
+        check_world("generate of strategy #%d" % k)
+        for x in pop:
+            x.fitness = F(f(numpy.array([float(v) for v in x])))
+        wv = [tuple(x.fitness.wvalues) for x in pop]
+        if not all(all(math.isfinite(v) for v in t) for t in wv):
+            return None
+        return pop
+
+    def do_update(k, pop):
+        """strategy k is updated with `pop`; everything is demanded from ITS OWN state after its own last step.
+        False = stop the history."""
+        st, pre = strats[k], last[k]
+        if pre["mu"] > len(pop):
+            tags.append("skipped-mu>len")
+            return True
+        ids = [id(x) for x in pop]
+        vals = numpy.array([[float(v) for v in x] for x in pop])
+        wv = [tuple(x.fitness.wvalues) for x in pop]
+        keys_tok, pop_tok = fm(wv), fm(vals)
+        distinct = len(set(wv)) == len(wv)
+        with numpy.errstate(all="ignore"):
+            st.update(pop)
+        post = snapshot(st)
+        what = "update of strategy #%d" % k
+        if sorted(ids) != sorted(id(x) for x in pop):
+            fail("%s: the population list no longer holds the individuals that were passed" % what)
+            return False
+        byid = {id(x): x for x in pop}
+        for i, ident in enumerate(ids):
+            x = byid[ident]
+            if [float(v) for v in x] != list(vals[i]) or tuple(x.fitness.wvalues) != wv[i]:
+                fail("%s: an individual of the population (a caller object) was modified by the library" % what)
+        if not (numpy.all(numpy.isfinite(post["C"])) and math.isfinite(post["sigma"])
+                and numpy.all(numpy.isfinite(post["centroid"]))):
+            # a population that was sampled by ANOTHER strategy can lie hundreds of this strategy's standard deviations
+            # away: exp(|p_sigma| / chiN ...) overflows in the published equations themselves (outside `finite inputs`)
+            order = sorted(range(len(wv)), key=lambda i: wv[i], reverse=True)
+            try:
+                with numpy.errstate(all="ignore"):
+                    pub = published_update(pre, vals[order[:pre["mu"]]])
+            except OverflowError:
+                pub = None
+            if distinct and pub is not None and numpy.all(numpy.isfinite(pub["C"])) and math.isfinite(pub["sigma"]) \
+                    and numpy.all(numpy.isfinite(pub["centroid"])):
+                fail("%s: non-finite state where the published equations give a finite one" % what)
+            else:
+                tags.append("overflow")
+            return False
+        w1, V1 = numpy.linalg.eigh(st.C)
+        i1 = numpy.argsort(w1)
+        e = check_eigh_contract(post["C"], w1, V1)
+        if e:
+            fail("%s: %s" % (what, e))
+        if numpy.min(w1) <= 0:
+            tags.append("indefinite")
+            return False
+        if post["count"] != pre["count"] + 1:
+            fail("%s: update_count went from %d to %d" % (what, pre["count"], post["count"]))
+        lines.append("C13 update %s %s %s %s %s %s" % (state_tokens(pre), keys_tok, pop_tok, fv(w1), fm(V1),
+                                                      ",".join(str(int(i)) for i in i1)))
+        expect.append(" ".join([nvec(post["centroid"]), nvec(post["ps"]), nvec(post["pc"]), nmat(post["C"]),
+                                fbits(post["sigma"]), str(post["count"]), nvec(post["diagD"]), nmat(post["B"]),
+                                nmat(post["BD"]), fbits(post["cond"]), "1"]))
+        if distinct:
+            order = sorted(range(len(wv)), key=lambda i: wv[i], reverse=True)
+            pub = published_update(pre, vals[order[:pre["mu"]]])
+            condC = float(pre["diagD"][-1] / pre["diagD"][0]) ** 2
+            otol = TOL * max(1.0, condC * 1e-6)
+            if not pub["borderline"]:
+                for key, text in (("centroid", "centroid is not the weighted mean of the mu best individuals"),
+                                  ("ps", "evolution path p_sigma differs from the published equation"),
+                                  ("pc", "evolution path p_c differs from the published equation"),
+                                  ("C", "covariance matrix differs from the published rank-one + rank-mu update"),
+                                  ("sigma", "step size differs from the published update")):
+                    if not close(post[key], pub[key], otol):
+                        fail("%s, from its own state after its own last step: %s (max deviation %g)" % (
+                            what, text, float(numpy.max(numpy.abs(numpy.asarray(post[key]) - numpy.asarray(pub[key]))))))
+        e = check_consistency(st)
+        if e:
+            fail("%s: %s" % (what, e))
+        for key in ("dim", "mu", "weights", "mueff", "cc", "cs", "ccov1", "ccovmu", "damps", "chiN", "lambda_"):
+            if snap_diff({key: pre[key]}, {key: post[key]}) is not None:
+                fail("%s changed the parameter %s" % (what, key))
+        last[k] = post
+        check_world(what, touched=(k,))
+        return not (post["cond"] > 1e8 or post["sigma"] > 1e100 or post["sigma"] < 1e-100)
+
+    def recompute(k, newlam):
+        """strategy.lambda_ = newlam; strategy.computeParams(the caller's keyword dictionary as it is NOW)"""
+        st, pre = strats[k], last[k]
+        old = st.lambda_
+        lam = old if newlam is None else newlam
+        mu_u, scheme, over = cur_params()
+        mu = mu_u if mu_u is not None else int(lam / 2)
+        if not (1 <= mu <= lam):
+            tags.append("skipped-mu>lambda")
+            return
+        st.lambda_ = lam
+        st.computeParams(P)
+        lines.append("C13 relambda %d %d %d %s %s %s" % (n, old, lam, opt(mu_u, str), scheme, over_tok(over)))
+        expect.append("%s %s" % (st.lambda_, params_answer(st)))
+        what = "`lambda_ = %d; computeParams(params)` on strategy #%d" % (lam, k)
+        if st.lambda_ != lam:
+            fail("after %s its lambda_ is %r" % (what, st.lambda_))
+        e = check_params(st, n, lam, mu, scheme, over)
+        if e:
+            fail("after %s: %s" % (what, e))
+        post = snapshot(st)
+        for key in ("centroid", "sigma", "pc", "ps", "C", "B", "diagD", "BD", "count", "chiN", "dim"):
+            if snap_diff({key: pre[key]}, {key: post[key]}) is not None:
+                fail("%s changed the search distribution (%s)" % (what, key))
+        last[k] = post
+        check_world(what, touched=(k,))
+        tags.append("recompute")
+
+    def poke(what, j):
+        """the caller modifies HIS object; strategies must not notice"""
+        nonlocal cobj, cm
+        rs = numpy.random.RandomState(d["cseed"] + 31 * j + 5)
+        if what == "centroid":
+            if isinstance(cobj, tuple):
+                return
+            for i in range(n):
+                if d["cent"] in ("intlist", "i64"):
+                    cobj[i] = int(cobj[i]) + int(rs.randint(-3, 4))
+                else:
+                    cobj[i] = float(cobj[i]) + float(rs.uniform(-1.0, 1.0))
+        elif what == "cmatrix":
+            # on the unchanged code `self.C is cmatrix` until the strategy's first update (cma.py:100): writing to
+            # the array before that is writing to the strategy (reported separately); here only afterwards
+            if cm is None or any(s["count"] == 0 for s in last):
+                tags.append("skipped-poke")
+                return
+            cm *= 2
+            cm[numpy.arange(n), numpy.arange(n)] += 1            # still symmetric positive definite
+        elif what == "params":
+            lo = min([s["lambda_"] for s in last] + [P["lambda_"]])
+            r = int(rs.randint(0, 3))
+            if r == 0:
+                P["mu"] = int(rs.randint(1, lo + 1))
+            elif r == 1:
+                P.pop("mu", None)
+            P["weights"] = SCHEMES[int(rs.randint(0, 3))]
+            if rs.uniform() < 0.5:
+                P["ccov1"] = float(rs.uniform(0.0, 0.3))
+            if rs.uniform() < 0.5:
+                P["cs"] = float(rs.uniform(0.1, 0.8))
+            mu_now = P.get("mu")
+            if mu_now is not None and mu_now > P["lambda_"]:
+                P["lambda_"] = mu_now
+        else:
+            raise ValueError(what)
+        remember()
+        for jj, st in enumerate(strats):
+            df = snap_diff(last[jj], snapshot(st))
+            if df is not None:
+                fail("strategy #%d changed (attribute %s) when the caller modified his own %s object after the "
+                     "strategies had been built and updated" % (jj, df, what))
+        tags.append("poke-" + what)
+
+    remember()
+    for j, op in enumerate(d["ops"]):
+        kind = op[0]
+        if kind == "new":
+            construct(float(op[1]))
+        elif kind in ("upd", "upd2"):
+            if op[1] >= len(strats) or (kind == "upd2" and op[2] >= len(strats)):
+                continue
+            pop = sample(op[1])
+            if pop is None:
+                break
+            if not do_update(op[1], pop):
+                tags.append("stopped")
+                break
+            if kind == "upd2":                       # the SAME list and individuals go to a second strategy
+                tags.append("reused-population")
+                if not do_update(op[2], pop):
+                    tags.append("stopped")
+                    break
+        elif kind == "recomp":
+            if op[1] < len(strats):
+                recompute(op[1], op[2])
+        elif kind == "poke":
+            poke(op[1], j)
+        else:
+            raise ValueError("unknown op %r" % (op,))
+        if orc is not None:
+            break
+    tag = "alias/%s/%s/%s/%s" % (d["cent"], d["cm"], d["ind"], "shared" if share else "own-copies")
+    for t in sorted(set(tags)):
+        tag += "/" + t
+    return Case(d, lines, expect, orc, tag=tag, tol=TOL_RUN, nontrivial=len(strats) >= 2)
+
+
+def rand_alias(rng, maxdim=5, nops=None):
+    n = rng.randint(2, maxdim)
+    lam = rng.randint(4, 4 + n)
+    d = {"k": "alias", "dim": n, "lam": lam,
+         "mu": rng.choice([None, None, rng.randint(1, 4)]),
+         "scheme": rng.choice([None, "superlinear", "linear", "equal"]),
+         "over": rand_over(rng, n, clip=False) if rng.random() < 0.3 else {},
+         "cent": rng.choice(CENT_KINDS), "cm": rng.choice(["f64", "f64", "f64", "int", "none"]),
+         "cmk": rng.choice(["diag", "spd1", "spd1", "spd3"]),
+         "ind": rng.choice(IND_KINDS), "share": rng.random() < 0.85,
+         "cseed": rng.randrange(1 << 30), "zseed": rng.randrange(1 << 30),
+         "obj": rng.choice(["sphere", "rosenbrock", "linear", "ellipsoid"]),
+         "fw": rng.choice([[-1.0], [-1.0], [1.0]])}
+    ns = rng.choice([2, 2, 3])
+    sig = lambda: rng.choice([1.0, 0.5, 2.0, round(10.0 ** rng.uniform(-1, 0.5), 4)])
+    ops = [["new", sig()] for _ in range(ns)]
+    fresh = set(range(ns))
+    for _ in range(nops if nops is not None else rng.randint(6, 12)):
+        r = rng.random()
+        if r < 0.55:
+            k = rng.randrange(ns)
+            if fresh:                                  # strategies that were not updated yet come first
+                k = min(fresh)
+            if rng.random() < 0.2 and ns > 1:
+                j = rng.choice([x for x in range(ns) if x != k])
+                ops.append(["upd2", k, j])
+                fresh.discard(j)
+            else:
+                ops.append(["upd", k])
+            fresh.discard(k)
+        elif r < 0.7:
+            what = rng.choice(["centroid", "cmatrix", "params"])
+            if what == "cmatrix" and fresh:
+                what = "centroid"
+            ops.append(["poke", what])
+        elif r < 0.82 and ns < 4:
+            ops.append(["new", sig()])                 # restart / further start from the same objects
+            fresh.add(ns)
+            ns += 1
+        else:
+            ops.append(["recomp", rng.randrange(ns), rng.choice([None, rng.randint(4, 4 + 2 * n)])])
+    for k in sorted(fresh):
+        ops.append(["upd", k])
+    d["ops"] = ops
+    return d
+
+
+def alias_structured(rng):
+    """fixed skeletons (the same for every seed), random numbers inside"""
+    rr = ["upd", 0], ["upd", 1], ["upd", 2]
+    skeletons = [
+        # three starts from ONE covariance object, interleaved (multi-start / islands)
+        dict(cent="f64", cm="f64", ind="list", ops=[["new", 0.5], ["new", 1.0], ["new", 2.0]] + list(rr) + list(rr)
+             + [["poke", "cmatrix"], ["poke", "centroid"], ["upd", 1], ["new", 1.0], ["upd", 3], ["upd", 0]]),
+        # one strategy runs, then a second one is built from the same objects (restart) while the first lives on
+        dict(cent="list", cm="f64", ind="ndarray", ops=[["new", 1.0], ["upd", 0], ["upd", 0], ["new", 1.0], ["upd", 1],
+                                                      ["upd", 0], ["upd", 1], ["poke", "centroid"], ["new", 0.5],
+                                                      ["upd", 2], ["upd", 0]]),
+        dict(cent="i64", cm="int", ind="list", ops=[["new", 1.0], ["new", 2.0], ["upd", 0], ["upd", 1], ["upd", 0],
+                                                   ["poke", "cmatrix"], ["poke", "centroid"], ["upd", 1], ["new", 1.0],
+                                                   ["upd", 2]]),
+        dict(cent="f32", cm="none", ind="view", ops=[["new", 1.0], ["new", 0.5], ["upd2", 0, 1], ["upd", 1],
+                                                     ["poke", "centroid"], ["upd2", 1, 0], ["upd", 0]]),
+        # the keyword dictionary is shared: the caller edits it, re-parameterises ONE strategy, the other keeps its own
+        dict(cent="tuple", cm="f64", ind="list", ops=[["new", 1.0], ["new", 1.0], ["upd", 0], ["upd", 1],
+                                                     ["poke", "params"], ["recomp", 0, 9], ["upd", 0], ["upd", 1],
+                                                     ["recomp", 1, None], ["upd", 1], ["upd", 0], ["new", 1.0],
+                                                     ["upd", 2]]),
+        dict(cent="intlist", cm="f64", ind="view", ops=[["new", 2.0], ["new", 0.5], ["upd", 0], ["upd", 1],
+                                                       ["recomp", 1, 12], ["upd", 1], ["upd", 0], ["poke", "cmatrix"],
+                                                       ["upd", 0], ["upd", 1]]),
+    ]
+    for sk in skeletons:
+        d = rand_alias(rng, nops=0)
+        d.update(sk)
+        d["share"] = True
+        d["mu"] = None if d["mu"] is None else min(d["mu"], 4)
+        yield d
+    # control: every strategy gets its own copies of the objects
+    d = rand_alias(rng, nops=0)
+    d.update(skeletons[0])
+    d["share"] = False
+    yield d
+
+
 def evaluate(d):
     if d["k"] == "params":
         return eval_params(d)
@@ -673,6 +1173,8 @@ def evaluate(d):
         return eval_sort(d)
     if d["k"] == "run":
         return eval_run(d)
+    if d["k"] == "alias":
+        return eval_alias(d)
     raise ValueError("unknown case kind %r" % (d,))
 
 
@@ -748,6 +1250,7 @@ def rand_run(rng, maxdim, long_ok=True):
 N_RUNS = {"quick": 1800, "thorough": 6000}
 N_PARAMS = {"quick": 150, "thorough": 1500}
 N_SORT = {"quick": 60, "thorough": 600}
+N_ALIAS = {"quick": 40, "thorough": 400}
 
 
 def generate(tier, rng, mult):
@@ -756,6 +1259,11 @@ def generate(tier, rng, mult):
     infrastructure error below MIN_CASES).  Streams that carry whole clauses of the property come first."""
     thorough = tier == "thorough"
     maxdim = 20 if thorough else 8            # quick explores dimensions 2..8 only; 9..20 are thorough-only
+    # -- several strategies / shared, re-used and caller-modified parameter objects (clause-carrying, small) ----
+    for d in alias_structured(rng):
+        yield d
+    for _ in range(N_ALIAS[tier] * mult):
+        yield rand_alias(rng, maxdim=8 if thorough else 5)
     # -- histories: one of every (scheme, objective) first ------------------------------------
     for scheme in SCHEMES:
         for obj in ("sphere", "rosenbrock", "linear", "step"):
@@ -867,6 +1375,26 @@ def shrink(d):
 
 
 def _shrink(d):
+    if d.get("k") == "alias":
+        ops = d["ops"]
+        for i in range(len(ops) - 1, -1, -1):
+            if ops[i][0] != "new":
+                yield dict(d, ops=ops[:i] + ops[i + 1:])
+        news = [i for i, o in enumerate(ops) if o[0] == "new"]
+        if len(news) > 1:                     # drop the last strategy and every step addressed to it
+            k = len(news) - 1
+            yield dict(d, ops=[o for i, o in enumerate(ops) if i != news[-1]
+                               and not (o[0] in ("upd", "recomp") and o[1] == k)
+                               and not (o[0] == "upd2" and k in (o[1], o[2]))])
+        for key, simple in (("cent", "list"), ("cm", "none"), ("ind", "list"), ("obj", "sphere"), ("scheme", None),
+                            ("mu", None)):
+            if d.get(key) != simple:
+                yield dict(d, **{key: simple})
+        if d.get("over"):
+            yield dict(d, over={})
+        if d["dim"] > 2:
+            yield dict(d, dim=2)
+        return
     if d.get("k") != "run":
         if d.get("k") == "sort" and d["keys"]:
             for i in range(len(d["keys"])):
